@@ -108,6 +108,13 @@ func newBed(c *fw.Ctx, o bedOpt) (*bed, error) {
 	if o.Variant == "values" {
 		b.Bulb.Lightbulb.Brightness.SetValue(77)
 		b.Switch.Switch.On.SetValue(true)
+		// values that are hostile to anything but a real JSON decoder
+		b.Switch.Info.Model.SetValue(`Lamp 24" rev A`)
+		b.Switch.Info.Manufacturer.SetValue(`{"value":1,"iid":99}],"x":[`)
+		b.Switch.Info.SerialNumber.SetValue("back\\slash \" and , \"value\":")
+		b.Bulb.Info.FirmwareRevision.SetValue("1.0\n\"")
+		b.ReadOnly.SetValue(`"`)
+		b.Thermo.TempSensor.CurrentTemperature.SetValue(-9.75)
 	}
 	accs := []*accessory.Accessory{b.Switch.Accessory, b.Bulb.Accessory, b.Thermo.Accessory, b.Extra}
 	if o.Variant == "plus-outlet" {
